@@ -40,7 +40,10 @@ def main():
             res.append((gmp, rep, s["hashes"], s.get("stats", {})))
         ref = res[0][2]
         for gmp, rep, h, st in res[1:]:
-            if h != ref:
+            # a wall-clock budget may have cut the batches at different points:
+            # compare the runs both processes did
+            n = min(len(ref), len(h))
+            if h[:n] != ref[:n]:
                 d = [(x, y) for x, y in zip(ref, h) if x != y]
                 print("NONDETERMINISTIC world=%s GOMAXPROCS=%d rep=%d: %d of %d runs differ; first: %s" % (part["world"], gmp, rep, len(d), len(ref), d[:2]))
                 bad += 1
